@@ -183,8 +183,7 @@ extern "C" fn handler(_sig: c_int, info: *mut siginfo_t, ctx: *mut c_void) {
                 let (frame, kind) = walk(st, vpage);
                 let slot = if kind == KIND_NOT_PRESENT { st.foreign_slot } else { slot_of(st, frame) };
                 if st.nlog >= MAX_LOG {
-                    fatal("softmmu: fault log overflow\n");
-                    libc::_exit(70);
+                    crate::crash::report_and_exit("softmmu: fault log overflow (runaway walk through a corrupted hierarchy)\n");
                 }
                 let p = libc::mmap(
                     vpage as *mut c_void,
@@ -195,8 +194,7 @@ extern "C" fn handler(_sig: c_int, info: *mut siginfo_t, ctx: *mut c_void) {
                     (slot * 4096) as libc::off_t,
                 );
                 if p != vpage as *mut c_void {
-                    fatal("softmmu: mmap at the faulting page failed (address in use?)\n");
-                    libc::_exit(70);
+                    crate::crash::report_and_exit("softmmu: mmap at the faulting page failed (address in use?)\n");
                 }
                 st.log[st.nlog] = Fault { vpage, frame, kind, phase: 0 };
                 st.nlog += 1;
